@@ -111,6 +111,18 @@ def check(run):
         shutil.rmtree(root2, ignore_errors=True)
     except Broken as b:
         broken.append(b)
+    # regression corpus: instance names must be unique (minimised failures run on every check)
+    import glob as _glob
+
+    for pth in sorted(_glob.glob(vlib.VERIF + "/corpus/C07/*/main.gom")):
+        (r,) = vlib.run_harness("compile", [{"path": pth, "dumps": ["mono_dbg"], "timeout_ms": 8000}])
+        if r.get("ok"):
+            names = [f[2]["name"][1] for f in rustdbg.parse(r["dumps"]["mono_dbg"])[2]["toplevels"][1]]
+            dup = sorted(x for x in set(names) if names.count(x) > 1)
+            if dup:
+                wits.append({"kind": "two Mono functions share the name %s" % dup[0], "program": open(pth).read()})
+        elif "panic" in r or r.get("timeout"):
+            wits.append({"kind": "compiler panic/hang on a corpus program", "program": open(pth).read()})
     for k in run.known:
         if k["replay"]["kind"] == "compile-hang":
             (r,) = vlib.run_harness("compile", [{"path": vlib.VERIF + "/" + k["replay"]["program"], "timeout_ms": 4000}])
